@@ -564,3 +564,96 @@ Proof.
   - to_tail 40%nat. rewrite Hv. reflexivity.
   - to_tail 40%nat. rewrite Hv. reflexivity.
 Qed.
+
+(* ---------- type 5: 302 mandatory bits, then as much of destination / DTE / spare as is present ---------- *)
+Theorem layout_static_voyage c bs :
+  if (302 <=? length bs)%nat
+  then exists e, parse_static_voyage c bs 0%nat = Ok (static_voyage_of bs, e) /\ (e <= length bs)%nat
+  else parse_static_voyage c bs 0%nat = Err EError.
+Proof.
+  unfold parse_static_voyage.
+  destruct (Nat.leb_spec 302 (length bs)) as [Hl|Hl]; [|short_of 302%nat].
+  match goal with |- exists e, ?m bs 0%nat = _ /\ _ =>
+    eassert (T : then_tail m 302 _) by (eapply then_tail_ext; [tt | reflexivity | intros; reflexivity]);
+    rewrite (T bs 0%nat) by lia; clear T; cbv beta end.
+  match goal with |- exists e, _ bs ?E = _ /\ _ => let v := eval vm_compute in E in change E with v end.
+  unfold bind at 1, remaining.
+  set (rem := (length bs - 302)%nat).
+  set (k := (Nat.min 120 rem / 6)%nat).
+  assert (Hk : (k <= 20)%nat).
+  { subst k. apply Nat.div_le_upper_bound; lia. }
+  assert (Hk6 : (6 * k <= rem)%nat).
+  { subst k. pose proof (Nat.mul_div_le (Nat.min 120 rem) 6 ltac:(lia)). lia. }
+  unfold bind at 1.
+  rewrite (reads_ok _ _ _ bs 302%nat (reads_parse_6bit_ascii c (Nat.min 120 rem) Hk)) by (fold k; lia).
+  fold k.
+  unfold bind at 1, remaining.
+  unfold static_voyage_of. fold rem. fold k.
+  set (after := (6 * k + 302)%nat).
+  replace (302 + 6 * k)%nat with after by (subst after; lia).
+  destruct (Nat.ltb_spec 0 (length bs - after)) as [H1|H1].
+  - (* a DTE bit is present *)
+    destruct (Nat.ltb_spec after (length bs)); [|lia].
+    unfold bind at 1. rewrite (reads_ok _ _ _ bs after reads_take_dte) by lia.
+    unfold bind at 1, remaining.
+    destruct (Nat.ltb_spec 0 (length bs - (1 + after))) as [H2|H2].
+    + unfold bind at 1. rewrite (reads_ok _ _ _ bs (1 + after)%nat (reads_take 1)) by lia.
+      eexists. split; [reflexivity|lia].
+    + eexists. split; [reflexivity|lia].
+  - destruct (Nat.ltb_spec after (length bs)); [lia|].
+    unfold bind at 1, ret at 1. unfold bind at 1, remaining.
+    destruct (Nat.ltb_spec 0 (length bs - after)); [lia|].
+    eexists. split; [reflexivity|lia].
+Qed.
+
+(* ---------- type 15: the three legal forms, and the mandatory part ---------- *)
+(* with the length fixed, the parser is stepped through reader by reader *)
+Lemma push_unwrap_ok {A} c cap (l : list A) x : (length l < cap)%nat -> push_unwrap c cap l x = Ok (l ++ [x]).
+Proof. intros H. unfold push_unwrap. destruct (Nat.leb_spec cap (length l)); [lia|]. rewrite Bool.andb_false_r. reflexivity. Qed.
+
+Ltac st Hlen :=
+  rewrite ?bind_assoc_pt;
+  first
+  [ match goal with |- bind remaining _ ?bs ?p = _ =>
+      unfold bind at 1, remaining at 1; rewrite Hlen; cbn [Nat.sub Nat.leb Nat.ltb] end
+  | match goal with |- bind (lift (push_unwrap _ _ _ _)) _ _ _ = _ =>
+      rewrite push_unwrap_ok by (cbn; lia); unfold bind at 1, lift at 1; cbn [app] end
+  | match goal with |- bind (ret _) _ _ _ = _ => unfold bind at 1, ret at 1 end
+  | match goal with |- bind ?m _ ?bs ?p = _ =>
+      let R := fresh "R" in eassert (R : reads m _ _) by rd;
+      unfold bind at 1; rewrite (reads_ok _ _ _ bs p R) by (rewrite Hlen; cbn [Nat.add]; lia); clear R; cbn [Nat.add] end ].
+
+Theorem layout_interrogation_88 c bs : length bs = 88%nat ->
+  parse_interrogation c bs 0%nat = Ok (interrogation_88 bs, 88%nat).
+Proof.
+  intros Hlen. unfold parse_interrogation, parse_int_station, parse_int_message.
+  do 30 (try st Hlen). reflexivity.
+Qed.
+
+Theorem layout_interrogation_110 c bs : length bs = 112%nat ->
+  parse_interrogation c bs 0%nat = Ok (interrogation_110 bs, 108%nat).
+Proof.
+  intros Hlen. unfold parse_interrogation, parse_int_station, parse_int_message.
+  do 40 (try st Hlen).
+  unfold interrogation_110, int_requests2, interrogation_head, int_msg_at.
+  cbn [im_message_type im_slot_offset].
+  destruct (negb (sl bs 90 6 =? 0) || _); do 20 (try st Hlen); reflexivity.
+Qed.
+
+Theorem layout_interrogation_160 c bs : length bs = 160%nat ->
+  parse_interrogation c bs 0%nat = Ok (interrogation_160 bs, 160%nat).
+Proof.
+  intros Hlen. unfold parse_interrogation, parse_int_station, parse_int_message.
+  do 40 (try st Hlen).
+  unfold interrogation_160, int_requests2, interrogation_head, int_msg_at.
+  cbn [im_message_type im_slot_offset].
+  destruct (negb (sl bs 90 6 =? 0) || _); do 40 (try st Hlen); reflexivity.
+Qed.
+
+(* a payload that cannot hold the header, one station identifier and one request type is rejected *)
+Theorem layout_interrogation_short c bs : (length bs < 76)%nat -> parse_interrogation c bs 0%nat = Err EError.
+Proof.
+  intros Hl. unfold parse_interrogation, parse_int_station, parse_int_message.
+  match goal with |- ?m bs 0%nat = _ =>
+    assert (S : fails_short m 76) by (eapply fails_short_ext; [fs | reflexivity]); apply S; lia end.
+Qed.
